@@ -766,6 +766,13 @@ class CallMixin:
                 res_a = PyList(out_a)
                 res_a.created_in = self._frame_id()  # type: ignore[attr-defined]
                 return res_a
+        if q in ("collections.deque", "_collections.deque") and len(args) <= 1 and not kwargs:
+            # a deque is a list that can also grow at the left (appendleft: see list_method)
+            dq = PyList([])
+            dq.created_in = self._frame_id()  # type: ignore[attr-defined]
+            if args:
+                self.list_extend(dq, self.resolve_alt(args[0]))
+            return dq
         if q in ("itertools.chain", "itertools.chain.from_iterable"):
             seqs = list(args)
             if q.endswith("from_iterable") and len(args) == 1:
@@ -1349,6 +1356,10 @@ class CallMixin:
                     parts.extend(to_str_parts(it))
                 s = Str(parts)
                 return Const(s.const()) if s.is_const() else s
+            if isinstance(seq, PyList) and seq.loop_parts and getattr(seq, "rev", False):
+                rseq = AbsList(self._elem_of_pylist(seq), len(seq.items) + getattr(seq, "_minextra", 0))
+                rseq.rev = True  # type: ignore[attr-defined]
+                seq = rseq
             if isinstance(seq, PyList) and seq.loop_parts:
                 parts = []
                 for i, it in enumerate(seq.items):
@@ -1435,6 +1446,24 @@ class CallMixin:
 
     def list_method(self, base: V, name: str, a: List[V], kwargs, module, node) -> V:
         own = isinstance(base, (PyList, AbsList)) and getattr(base, "created_in", None) is not None
+        if name in ("appendleft", "popleft", "extendleft"):
+            if not (isinstance(base, PyList) and base.created_in is not None):
+                raise AnalysisError(f"deque.{name} on a sequence not built in this function", self.cur_where)
+            self.event("list_mutation", target=_describe(base), op=name, created_in=base.created_in, frame=self._frame_id())
+            if name == "popleft" and not a:
+                return self.list_method(base, "pop", [Const(0)], {}, module, node)
+            if name == "appendleft" and len(a) == 1:
+                if not self.loop_ctx and not base.loop_parts:
+                    base.items.insert(0, a[0])
+                    return NONE
+                if not base.items and (not base.loop_parts or getattr(base, "rev", False)):
+                    # only ever grown at the left, inside loops: the reverse of the same appends (`rev`: parity of reversals)
+                    self.list_append(base, a[0])
+                    base.rev = True  # type: ignore[attr-defined]
+                    return NONE
+            raise AnalysisError(f"deque.{name}: growth at both ends of an abstract sequence is not supported", self.cur_where)
+        if name in ("append", "extend", "insert") and isinstance(base, PyList) and getattr(base, "rev", False) and base.loop_parts:
+            raise AnalysisError(f"{name} on a sequence grown at the left inside a loop is not supported", self.cur_where)
         if name in ("append", "extend", "insert", "pop", "remove", "clear", "sort", "reverse"):
             if isinstance(base, ListV) or (isinstance(base, PyList) and base.created_in is None) or isinstance(base, MapV):
                 self.event("mutate", target=_describe(base), op=name)
